@@ -120,6 +120,11 @@ def catalogue():
         for inner, exp in ((0.3, "in"), (0.999, "in"), (1.0, "out"), (1.5, "out")):
             add(f"Annulus(inner_radius) f{fr}", inner, exp, lambda inner=inner, fr=fr: Annulus(P(fr, [0, 0, 0]), P(fr, [1, 0, 0]), V(fr, [0, 0, 1]), inner))
             add(f"ExtrudedRing(inner_radius) f{fr}", inner, exp, lambda inner=inner, fr=fr: cb.ExtrudedRing(P(fr, [0, 0, 0]), P(fr, [0, 0, 1]), P(fr, [1, 0, 0]), inner))
+        # the same limit on the other side of zero: a negative inner radius puts the inner point on the far side of the
+        # centre; with |inner| above the outer radius the ring is inside-out just the same
+        for inner, exp in ((-1.5, "out"), (-2.0, "out"), (-1.0, "may")):
+            add(f"Annulus(inner_radius) f{fr}", inner, exp, lambda inner=inner, fr=fr: Annulus(P(fr, [0, 0, 0]), P(fr, [1, 0, 0]), V(fr, [0, 0, 1]), inner))
+            add(f"ExtrudedRing(inner_radius) f{fr}", inner, exp, lambda inner=inner, fr=fr: cb.ExtrudedRing(P(fr, [0, 0, 0]), P(fr, [0, 0, 1]), P(fr, [1, 0, 0]), inner))
         for inner, exp in ((0.0, "may"), (-0.3, "may")):
             add(f"ExtrudedRing(inner_radius) f{fr}", inner, exp, lambda inner=inner, fr=fr: cb.ExtrudedRing(P(fr, [0, 0, 0]), P(fr, [0, 0, 1]), P(fr, [1, 0, 0]), inner))
         for lean, exp in ((0.0, "in"), (1e-9, "may"), (-1e-9, "may"), (0.5, "out"), (-0.5, "out"), (1e-3, "out"), (-1e-3, "out")):
